@@ -195,6 +195,16 @@ func (e *Engine) designatorHeaps(c *Contract, f *types.Func, d string) (map[stri
 		out["H:big"] = "(Array Int Int)"
 		return out, nil
 	}
+	if strings.HasPrefix(d, "chansent(") && strings.HasSuffix(d, ")") {
+		pkg := e.pkgOfContract(c, f)
+		t, err := e.resolveType(d[9:len(d)-1], pkg)
+		if err != nil {
+			return nil, err
+		}
+		hn, hs := e.chanHeap(t)
+		out[hn] = hs
+		return out, nil
+	}
 	if strings.HasPrefix(d, "ghost(") && strings.HasSuffix(d, ")") {
 		hn, hs := ghostHeap(d[6 : len(d)-1])
 		out[hn] = hs
@@ -326,7 +336,7 @@ func (fr *Frame) havocDesignator(s, pre *State, c *Contract, f *types.Func, d st
 		fr.havocEverything(s)
 		return nil
 	}
-	if strings.HasPrefix(d, "heap(") || d == "big" || d == "streams" || strings.HasPrefix(d, "mapof(") || strings.HasPrefix(d, "ghost(") || strings.HasPrefix(d, "ghostmap(") {
+	if strings.HasPrefix(d, "heap(") || d == "big" || d == "streams" || strings.HasPrefix(d, "mapof(") || strings.HasPrefix(d, "ghost(") || strings.HasPrefix(d, "ghostmap(") || strings.HasPrefix(d, "chansent(") {
 		hs, err := fr.eng.designatorHeaps(c, f, d)
 		if err != nil {
 			return err
